@@ -21,6 +21,8 @@ import (
 	"bytes"
 	"encoding/json"
 	"fmt"
+	"github.com/TheManticoreProject/Manticore/network/smb/smb_v10/message/commands"
+	"github.com/TheManticoreProject/Manticore/network/smb/smb_v10/types"
 	"math/rand"
 	"reflect"
 	"strconv"
@@ -421,6 +423,9 @@ func smbReplay(c *h.Ctx, mode string) error {
 			}
 		}
 	}
+	if mode == "decl" {
+		smbDirInfoLists(c)
+	}
 	for _, s := range structs {
 		if !seen[s.Name] {
 			uncovered = append(uncovered, s.Name)
@@ -590,6 +595,93 @@ func smbC04Case(c *h.Ctx, mk func() command_interface.CommandInterface, k *smbCa
 		c.Fail(site, "reencode:fresh-buffers", fmt.Sprintf("Marshal of the decoded fields: %s, first encoding: %s", smbHex(b3), smbHex(b1)), k.sample())
 	}
 	return nil
+}
+
+// smbDirInfoLists: the two structures whose data block is a LIST of SMB_Directory_Information records (FindResponse,
+// FindUniqueResponse). The generic case table gives them no record (the record type belongs to C06's specification); here they
+// carry 1..3 seeded records (values of C06's generator) with the matching Count and must round-trip record by record.
+func smbDirInfoLists(c *h.Ctx) {
+	rng := rand.New(rand.NewSource(int64(c.OptInt("seed", 1)) + 4242))
+	cd := c06Codecs["dirinfo"]
+	for _, st := range []string{"FindResponse", "FindUniqueResponse"} {
+		site := "commands." + st
+		for n := 1; n <= 3; n++ {
+			var recs []types.SMB_DIRECTORY_INFORMATION
+			var want []string
+			for i := 0; i < n; i++ {
+				x := cd.random(rng)
+				d := cd.routes(x)[0].obj.(*types.SMB_DIRECTORY_INFORMATION)
+				recs = append(recs, *d)
+				j, _ := json.Marshal(x)
+				want = append(want, string(j))
+			}
+			smp := map[string]interface{}{"structure": st, "records": n}
+			build := func() command_interface.CommandInterface {
+				if st == "FindResponse" {
+					r := commands.NewFindResponse()
+					r.Init()
+					r.Count = types.USHORT(n)
+					r.DirectoryInformationData = append([]types.SMB_DIRECTORY_INFORMATION(nil), recs...)
+					return r
+				}
+				r := commands.NewFindUniqueResponse()
+				r.Init()
+				r.Count = types.USHORT(n)
+				r.DirectoryInformationData = append([]types.SMB_DIRECTORY_INFORMATION(nil), recs...)
+				return r
+			}
+			c.Case(fmt.Sprintf("%s:records=%d", st, n))
+			b1, merr, p := smbMarshalInMessage(build())
+			c.Exec(1)
+			if p != "" || merr != nil {
+				c.Fail(site, "marshal-error@records", fmt.Sprintf("%v %s", merr, p), smp)
+				continue
+			}
+			var y command_interface.CommandInterface
+			if st == "FindResponse" {
+				r := commands.NewFindResponse()
+				r.Init()
+				y = r
+			} else {
+				r := commands.NewFindUniqueResponse()
+				r.Init()
+				y = r
+			}
+			var uerr error
+			p = h.Guard(func() { _, uerr = y.Unmarshal(append([]byte{}, b1...)) })
+			c.Exec(1)
+			if p != "" || uerr != nil {
+				c.Fail(site, "unmarshal-error@records", fmt.Sprintf("%v %s", uerr, p), smp)
+				continue
+			}
+			var got []types.SMB_DIRECTORY_INFORMATION
+			var count int
+			switch r := y.(type) {
+			case *commands.FindResponse:
+				got, count = r.DirectoryInformationData, int(r.Count)
+			case *commands.FindUniqueResponse:
+				got, count = r.DirectoryInformationData, int(r.Count)
+			}
+			if count != n {
+				c.Fail(site, "roundtrip:Count", fmt.Sprintf("stored %d, decoded %d", n, count), smp)
+			}
+			if len(got) != n {
+				c.Fail(site, "roundtrip:DirectoryInformationData", fmt.Sprintf("%d records stored, %d decoded", n, len(got)), smp)
+				continue
+			}
+			for i := range got {
+				j, _ := json.Marshal(cd.proj(&got[i]))
+				if string(j) != want[i] {
+					c.Fail(site, "roundtrip:DirectoryInformationData", fmt.Sprintf("record %d: stored %.200s, decoded %.200s", i, want[i], j), smp)
+					break
+				}
+			}
+			b2, merr2, p2 := smbMarshalInMessage(y)
+			if p2 != "" || merr2 != nil || !bytes.Equal(b1, b2) {
+				c.Fail(site, "reencode", fmt.Sprintf("with %d records: %s vs first encoding %s (%v %s)", n, smbHex(b2), smbHex(b1), merr2, p2), smp)
+			}
+		}
+	}
 }
 
 // smbReusedReceiver decodes the encoding into ONE long-lived structure per command type (only judged where the fresh decode
